@@ -33,6 +33,11 @@ def compare_build(ref, obs, parameter_mode=True):
     snap = obs['snapshot']['tasks']
     if set(snap) != set(ref.tasks):
         add('C08', 'names', f'task names differ: only in chain {sorted(set(snap) - set(ref.tasks))}, only in reference {sorted(set(ref.tasks) - set(snap))}')
+        obs_slugs, ref_slugs = {d['slug'] for d in snap.values()}, {t['slug'] for t in ref.tasks.values()}
+        if obs_slugs != ref_slugs:
+            # <group levels>/<task name> is part of the storage layout: a task whose group-qualified name changes loses its stored results
+            add('C12', 'task_dir', f'group-qualified task names (= result directories) differ from the documented derivation: only in chain '
+                                   f'{sorted(obs_slugs - ref_slugs)}, only in reference {sorted(ref_slugs - obs_slugs)}')
         return out
     shared_keys = {}
     for n, t in ref.tasks.items():
